@@ -30,7 +30,9 @@ mutual
               choiceIndex useInts dp.lits dp.n (fmtChoice o dp i (BDNA.mk v bound cs).erase) = some i.toNat) ∧
             -- the DNA style stores the whole sub-tree: the children are NOT read
             (if o.valueType = 1 then D' = D1 else ReadsL cs D1 D')
-        else ReadsL cs D D'
+        else ∃ D1, getDecision D (renderId dp.id) dp.name =
+            (some (.one (if o.valueType == 1 then .dna (BDNA.mk v bound cs).erase else .val v)), D1) ∧
+          ReadsL cs D1 D'
       | some dp, v' =>
         if dp.kind = .choice then ReadsL cs D D'
         else ∃ D1, getDecision D (renderId dp.id) dp.name =
